@@ -211,7 +211,7 @@ def doInfo (l : Line) : Option String := do
 
 `k=T|P` (tensor / product space: pure delegation, elements flat) `n=<size>` or
 `k=D u=<unif> ax=<n,fl,fr;…>` (discretized: boundary scaling, then delegation);
-`ck=i B=<matrix>` (`inner = vdot(B v, B u)`), `ck=n w=<list>` (`norm = max(w |u|)`),
+`ck=i B=<matrix> [C=<matrix>]` (`inner = vdot(B v, B u)` resp. `vdot(C v, B u)`), `ck=n w=<list>` (`norm = max(w |u|)`),
 `ck=d w=<list> cap=<rat>` (`dist = min(cap, sum(w |u - v|))`). -/
 
 section custom
@@ -225,7 +225,14 @@ def mkCustom (cvK : Rat → K) (cvR : Rat → R) (o : IOps K R) (abs : K → R) 
     let B ← l.mat? "B"
     if B.length != n || B.any (fun r => r.length != n) then none
     let Ba := (B.map (fun r => (r.map cvK).toArray)).toArray
-    some (.inner (gramInner o n (fun i j => (Ba.getD i #[]).getD j (cvK 0))))
+    match l.get? "C" with
+    | none => some (.inner (gramInner o n (fun i j => (Ba.getD i #[]).getD j (cvK 0))))
+    | some _ =>
+      let C ← l.mat? "C"
+      if C.length != n || C.any (fun r => r.length != n) then none
+      let Ca := (C.map (fun r => (r.map cvK).toArray)).toArray
+      some (.inner (formInner o n (fun i j => (Ba.getD i #[]).getD j (cvK 0))
+        (fun i j => (Ca.getD i #[]).getD j (cvK 0))))
   else if ck = "n" then
     let w ← l.rats? "w"
     if w.length != n then none
